@@ -79,6 +79,9 @@ class Ctx:
     def floor(self, rule, what, count, minimum):
         """fail closed when a rule matched fewer instances than were confirmed by hand."""
         ok = count >= minimum
+        if os.environ.get("VERIF_FLOORS"):
+            with open(os.environ["VERIF_FLOORS"], "a") as f:
+                f.write("%s\t%s\t%s\t%d\t%d\n" % (self.prop if hasattr(self, "prop") else "?", rule, what, count, minimum))
         self.ob(rule, "floor:%s" % what, ok,
                 "%s: matched %d instance(s), floor %d" % (what, count, minimum),
                 replay=None if ok else {"kind": "floor", "what": what, "count": count, "floor": minimum})
